@@ -1,4 +1,5 @@
 import Acra.Lemmas.Pcap
+import Acra.Lemmas.ReviewC05Pcap
 import Acra.Spec.Net
 namespace Acra.Props.C05
 open Acra.Py Acra.Model.Pcap Acra.Gen.Pcap Acra.Lemmas.Pcap
@@ -143,5 +144,137 @@ theorem items_le_bytes (fuel : Nat) (fs : FS) (rs : List Rec) (h : (readAll fuel
             cases hcl : hd.closed <;> cases hm : hd.mode <;> simp_all
           simpa [readAll, next, hh, hc] using h.symm
         simp [this]
+
+/-! ### review additions: joint witnesses, end-to-end statements, exact case split of the truncation result -/
+
+/-- three records used as joint witnesses: extreme 32-bit time stamps, an EMPTY payload, a one-byte payload -/
+def wRecs : List Rec :=
+  [ { sec := 0xFFFFFFFF, usec := 0xFFFFFFFF, incl_len := 3, orig_len := 3, payload := [1, 2, 3] },
+    { sec := 5, usec := 0, incl_len := 0, orig_len := 0, payload := [] },
+    { sec := 6, usec := 999999, incl_len := 1, orig_len := 1, payload := [9] } ]
+
+theorem wRecs_WF : ∀ r ∈ wRecs, Rec_WF r := by
+  intro r hr
+  simp only [wRecs, List.mem_cons, List.not_mem_nil, or_false] at hr
+  rcases hr with h | h | h <;> subst h <;> simp [Rec_WF]
+
+/-- joint witness for `fileOf_eq_spec`, `sessions_irrelevant` (a split with an EMPTY session), `read_write`,
+    `getitem_eq`, `getitem_after_open`, `truncation`: the hypotheses hold together for `wRecs` … -/
+example : (∀ r ∈ wRecs, Rec_WF r) ∧ (∀ r ∈ [wRecs[0]], Rec_fits r) ∧
+    (∀ rs ∈ [[], [wRecs[1], wRecs[2]]], ∀ r ∈ rs, Rec_fits r) ∧
+    (⟨some (fileOf wRecs), none⟩ : FS).file = some (fileOf wRecs) ∧
+    (24 ≤ 60 ∧ (⟨some ((fileOf wRecs).take 60), none⟩ : FS).file = some ((fileOf wRecs).take 60)) ∧
+    Readable (openFile ⟨some (fileOf wRecs), none⟩ .r).1 (fileOf wRecs) 24 :=
+  ⟨wRecs_WF, fun r hr => (wRecs_WF r (by simp only [List.mem_singleton] at hr; subst hr; decide)).fits,
+   fun rs hrs r hr => (wRecs_WF r (by
+      simp only [List.mem_cons, List.not_mem_nil, or_false] at hrs
+      rcases hrs with h | h <;> subst h
+      · simp at hr
+      · simp only [List.mem_cons, List.not_mem_nil, or_false] at hr
+        rcases hr with h | h <;> subst h <;> decide)).fits,
+   rfl, ⟨by decide, rfl⟩, (open_r_readable _ _ rfl).2⟩
+
+/-- … and the model, run on them, gives the stated results (the file is 24 + 19 + 16 + 17 = 76 bytes) -/
+example : (fileOf wRecs).length = 76 := by decide
+example : (readAll 200 (openFile (runSessions [wRecs[0]] [[], [wRecs[1], wRecs[2]]]) .r).1).2.toOption = some wRecs := by
+  decide +kernel
+example : (getitem (openFile (runSessions [wRecs[0]] [[], [wRecs[1], wRecs[2]]]) .r).1 1).2.toOption = some wRecs[1]? := by
+  decide +kernel
+
+/-- the truncation result at the interesting offsets of that file (n = offset − 24): a 16-byte header alone gives the
+    record with an empty payload; the EMPTY-payload record is complete as soon as its header is; one byte short of a
+    header gives nothing -/
+example : truncSpec wRecs 15 = [] ∧ truncSpec wRecs 16 = [shorten wRecs[0] 0] ∧
+    truncSpec wRecs 18 = [shorten wRecs[0] 2] ∧ truncSpec wRecs 19 = [wRecs[0]] ∧
+    truncSpec wRecs 34 = [wRecs[0]] ∧ truncSpec wRecs 35 = [wRecs[0], wRecs[1]] ∧
+    truncSpec wRecs 51 = [wRecs[0], wRecs[1], shorten wRecs[2] 0] ∧ truncSpec wRecs 52 = wRecs ∧
+    truncSpec wRecs 1000 = wRecs := by decide
+example : (shorten wRecs[0] 2) = { sec := 0xFFFFFFFF, usec := 0xFFFFFFFF, incl_len := 2, orig_len := 2, payload := [1, 2] } := by
+  decide
+
+/-- **end to end, write then read**: the records written in ANY split into sessions (w, a, a, …; empty sessions
+    and empty record lists included) are read back after close — by iteration and by index -/
+theorem sessions_then_read (first : List Rec) (more : List (List Rec))
+    (hf : ∀ r ∈ first, Rec_WF r) (hm : ∀ rs ∈ more, ∀ r ∈ rs, Rec_WF r) :
+    (openFile (runSessions first more) .r).2 = .ok () ∧
+    (readAll (fuelFor (openFile (runSessions first more) .r).1) (openFile (runSessions first more) .r).1).2 =
+      .ok (first ++ more.flatten) ∧
+    ∀ i : Nat, (getitem (openFile (runSessions first more) .r).1 i).2 = .ok (first ++ more.flatten)[i]? := by
+  have hfile := sessions_irrelevant first more (fun r hr => (hf r hr).fits) (fun rs hrs r hr => (hm rs hrs r hr).fits)
+  have hwf : ∀ r ∈ first ++ more.flatten, Rec_WF r := by
+    intro r hr
+    rcases List.mem_append.1 hr with h | h
+    · exact hf r h
+    · obtain ⟨rs, hrs, hr'⟩ := List.mem_flatten.1 h
+      exact hm rs hrs r hr'
+  have := read_write (runSessions first more) _ hwf hfile
+  exact ⟨this.1, this.2, fun i => getitem_after_open _ _ i hwf hfile⟩
+
+example : (∀ r ∈ ([] : List Rec), Rec_WF r) ∧ ∀ rs ∈ [[], wRecs], ∀ r ∈ rs, Rec_WF r :=
+  ⟨by simp, fun rs hrs r hr => by
+    simp only [List.mem_cons, List.not_mem_nil, or_false] at hrs
+    rcases hrs with h | h <;> subst h
+    · simp at hr
+    · exact wRecs_WF r hr⟩
+
+/-- **end to end, crash**: the file left by any split into sessions, cut by the crash model `truncate` at any
+    byte `t` from the end of the global header to the end of the file, reads as `truncSpec` -/
+theorem sessions_then_truncate (first : List Rec) (more : List (List Rec)) (t : Nat)
+    (hf : ∀ r ∈ first, Rec_WF r) (hm : ∀ rs ∈ more, ∀ r ∈ rs, Rec_WF r)
+    (h24 : 24 ≤ t) (hle : t ≤ (fileOf (first ++ more.flatten)).length) :
+    (truncate (runSessions first more) t).2 = .ok () ∧
+    (openFile (truncate (runSessions first more) t).1 .r).2 = .ok () ∧
+    (readAll (fuelFor (openFile (truncate (runSessions first more) t).1 .r).1)
+        (openFile (truncate (runSessions first more) t).1 .r).1).2 =
+      .ok (truncSpec (first ++ more.flatten) (t - 24)) := by
+  have hfile := sessions_irrelevant first more (fun r hr => (hf r hr).fits) (fun rs hrs r hr => (hm rs hrs r hr).fits)
+  have hwf : ∀ r ∈ first ++ more.flatten, Rec_WF r := by
+    intro r hr
+    rcases List.mem_append.1 hr with h | h
+    · exact hf r h
+    · obtain ⟨rs, hrs, hr'⟩ := List.mem_flatten.1 h
+      exact hm rs hrs r hr'
+  have hz : t - (fileOf (first ++ more.flatten)).length = 0 := by omega
+  have htr : (truncate (runSessions first more) t).2 = .ok () ∧
+      (truncate (runSessions first more) t).1.file = some ((fileOf (first ++ more.flatten)).take t) := by
+    simp [truncate, closeIfOpen, hfile, hz]
+  have := truncation _ _ t hwf h24 htr.2
+  exact ⟨htr.1, this.1, this.2⟩
+
+example : (∀ r ∈ [wRecs[0]], Rec_WF r) ∧ (∀ rs ∈ [[wRecs[1], wRecs[2]]], ∀ r ∈ rs, Rec_WF r) ∧ 24 ≤ 60 ∧
+    60 ≤ (fileOf ([wRecs[0]] ++ [[wRecs[1], wRecs[2]]].flatten)).length :=
+  ⟨fun r hr => wRecs_WF r (by simp only [List.mem_singleton] at hr; subst hr; decide),
+   fun rs hrs r hr => wRecs_WF r (by
+      simp only [List.mem_singleton] at hrs; subst hrs
+      simp only [List.mem_cons, List.not_mem_nil, or_false] at hr
+      rcases hr with h | h <;> subst h <;> decide), by decide, by decide⟩
+example : (readAll 200 (openFile (truncate (runSessions [wRecs[0]] [[wRecs[1], wRecs[2]]]) 60).1 .r).1).2.toOption =
+    some [wRecs[0], wRecs[1]] := by decide +kernel
+
+/-- `truncation_shape` with the case split made exact: the result ends after the `k` complete records exactly when
+    all records are complete or fewer than 16 bytes of the next one are present; otherwise the next header is complete
+    and that record follows with the `m` payload bytes that are there (`m` may be 0), both lengths = `m` -/
+theorem truncation_shape_exact (rs : List Rec) (n : Nat) :
+    ∃ k tail, truncSpec rs n = rs.take k ++ tail ∧ k ≤ rs.length ∧ bytesOf (rs.take k) ≤ n ∧
+      (k < rs.length → n < bytesOf (rs.take (k + 1))) ∧
+      ((tail = [] ∧ (k = rs.length ∨ n < bytesOf (rs.take k) + 16)) ∨
+        ∃ r m, rs[k]? = some r ∧ m < r.payload.length ∧ tail = [shorten r m] ∧
+               bytesOf (rs.take k) + 16 + m = n) :=
+  Acra.Lemmas.ReviewC05Pcap.truncSpec_shape_exact rs n
+
+/-- a cut beyond the end of the file changes nothing (`List.take` past the end is the whole list): the result is `rs` -/
+theorem truncation_past_end (rs : List Rec) (n : Nat) (h : bytesOf rs ≤ n) : truncSpec rs n = rs :=
+  truncSpec_all rs n h
+
+example : bytesOf wRecs ≤ 52 := by decide
+
+/-- what `Rec_WF` excludes (documented exclusion, notes/net.md O5): a record whose `orig_len` was assigned
+    directly and differs from the payload length (a snap-length-truncated capture) is written as is, but the
+    reader puts the payload in through the `packet` setter, so it comes back with `orig_len = incl_len` -/
+example :
+    let r : Rec := { sec := 1, usec := 2, incl_len := 2, orig_len := 1500, payload := [7, 8] }
+    Rec_fits r ∧ ¬ Rec_WF r ∧
+    nextRec (recBytes r) = some ({ r with orig_len := 2 }, 18) := by
+  refine ⟨by simp [Rec_fits], by simp [Rec_WF], by decide⟩
 
 end Acra.Props.C05
